@@ -62,7 +62,18 @@ class LowerLinalgBody(RewritePattern):
             return
 
         # only works for non-fused kernels (only 1 kernel op)
-        if not isinstance(kernel_op.next_op, linalg.YieldOp):
+        if not isinstance(yield_op := kernel_op.next_op, linalg.YieldOp):
+            return
+
+        # the equivalent region is written over fresh block arguments: this is only the same
+        # computation if the kernel op is applied to the block arguments in order, produces
+        # the type of the output element and its result is what the body yields
+        block = linalg_op.body.block
+        if (
+            tuple(kernel_op.operands) != block.args[:-1]
+            or list(kernel_op.result_types) != [block.args[-1].type]
+            or tuple(yield_op.operands) != tuple(kernel_op.results)
+        ):
             return
 
         # replace linalg op
